@@ -338,14 +338,25 @@ func multiSplit(value string, seps ...string) []string {
 }
 
 func recursiveCheck(value []string, funcs []func(string) bool) bool {
+	// failed[n] records that the last n components cannot be segmented, so
+	// that every suffix is explored at most once instead of once per way of
+	// segmenting the components in front of it.
+	return recursiveCheckSuffix(value, funcs, make([]bool, len(value)+1))
+}
+
+func recursiveCheckSuffix(value []string, funcs []func(string) bool, failed []bool) bool {
+	if failed[len(value)] {
+		return false
+	}
 	for i := 0; i < len(value); i++ {
 		tempVal := strings.Join(value[:i+1], " ")
 		for _, j := range funcs {
-			if j(tempVal) && (len(value[i+1:]) == 0 || recursiveCheck(value[i+1:], funcs)) {
+			if j(tempVal) && (len(value[i+1:]) == 0 || recursiveCheckSuffix(value[i+1:], funcs, failed)) {
 				return true
 			}
 		}
 	}
+	failed[len(value)] = true
 	return false
 }
 
